@@ -5,6 +5,7 @@ package main
 // SMT-LIB2 printing (DAG-shared via let-free define-fun lines).
 
 import (
+	"os"
 	"fmt"
 	"math/bits"
 	"sort"
@@ -281,6 +282,53 @@ func splitAddConst(t *Term) (*Term, uint64) {
 	return t, 0
 }
 
+// linear decomposes t (width w) into sum(coeff_i * atom_i) + k modulo 2^w, looking through
+// bvadd, bvsub, shl-by-constant and mul-by-constant.
+func linear(t *Term, mult uint64, acc map[*Term]uint64, k *uint64, depth int) {
+	m := mask(t.W)
+	switch {
+	case t.Op == OConst:
+		*k = (*k + mult*t.Val) & m
+		return
+	case depth > 40:
+	case t.Op == OAdd:
+		linear(t.Args[0], mult, acc, k, depth+1)
+		linear(t.Args[1], mult, acc, k, depth+1)
+		return
+	case t.Op == OSub:
+		linear(t.Args[0], mult, acc, k, depth+1)
+		linear(t.Args[1], (-mult)&m, acc, k, depth+1)
+		return
+	case t.Op == OShl && t.Args[1].IsConst() && t.Args[1].Val < uint64(t.W):
+		linear(t.Args[0], (mult<<t.Args[1].Val)&m, acc, k, depth+1)
+		return
+	case t.Op == OMul && t.Args[1].IsConst():
+		linear(t.Args[0], (mult*t.Args[1].Val)&m, acc, k, depth+1)
+		return
+	}
+	acc[t] = (acc[t] + mult) & m
+}
+
+// linEqual decides a == b by linear normalisation when possible: (decided, value).
+var noLin = os.Getenv("GOSMT_NOLIN") != ""
+
+func linEqual(a, b *Term) (bool, bool) {
+	isLin := func(t *Term) bool { return t.Op == OAdd || t.Op == OSub || t.Op == OShl || t.Op == OMul }
+	if !isLin(a) && !isLin(b) {
+		return false, false
+	}
+	acc := map[*Term]uint64{}
+	var k uint64
+	linear(a, 1, acc, &k, 0)
+	linear(b, mask(a.W), acc, &k, 0) // -1
+	for _, c := range acc {
+		if c != 0 {
+			return false, false
+		}
+	}
+	return true, k&mask(a.W) == 0
+}
+
 func (tb *TB) Eq(a, b *Term) *Term {
 	if a == b {
 		return tb.True
@@ -309,6 +357,9 @@ func (tb *TB) Eq(a, b *Term) *Term {
 		bb, cb := splitAddConst(b)
 		if ba == bb && ba != nil {
 			return tb.Bool((ca & mask(a.W)) == (cb & mask(a.W)))
+		}
+		if dec, v := linEqual(a, b); dec && !noLin {
+			return tb.Bool(v)
 		}
 		// zext(x) == const
 		if b.IsConst() && a.Op == OZext {
@@ -1078,6 +1129,12 @@ func (tb *TB) Script(asserts []*Term, getVals []*Term) string {
 	}
 	for _, a := range asserts {
 		fmt.Fprintf(&sb, "(assert %s)\n", ref(a))
+	}
+	for _, t := range order {
+		if (t.Op == OShl || t.Op == OLshr || t.Op == OAshr) && !t.Args[1].IsConst() || t.Op == OMul && !t.Args[1].IsConst() || t.Op == OUF {
+			sb.WriteString("; symshift\n") // marker: bit-level query, integer encoding unlikely to help
+			break
+		}
 	}
 	return sb.String()
 }
